@@ -51,6 +51,8 @@ import time
 import traceback
 
 REPLY_TIMEOUT = 300.0      # harness guard only (seconds without an answer from a granted worker)
+BLOCKED_GRACE = 20.0       # harness guard only: a worker that reported 'blocked' while another is paused and then does
+                           # not end its step (it spins on the lock) is killed; the schedule is infeasible either way
 MAX_POINTS = 32            # horizon: steps of one worker in one schedule
 MAX_SCHEDULES = 20000      # horizon: schedule runs of one exploration
 
@@ -91,7 +93,9 @@ class _WorkerApi:
 
     # ---- called by the task's hooks, inside the operation --------------------------------------------
     def flag(self, name):
-        self.flags.add(name)
+        if name not in self.flags:
+            self.flags.add(name)
+            self.send({"ev": "flag", "name": name})      # at once: the operation may never get to its next event
 
     def point(self, kind, info=None):
         if self.free > 0:          # first point of a lazily started operation: part of the first step
@@ -338,12 +342,32 @@ class Group:
         self.workers[i].kill()
         self.workers[i] = self.pool.spawn()
 
+    def _await(self, i, others_mid):
+        """The event that ends worker i's step ('point' / 'done' / 'exc').  'flag' notifications are folded in."""
+        w = self.workers[i]
+        flags = set()
+        while True:
+            spinning = others_mid and "blocked" in flags
+            try:
+                ev = w.recv(BLOCKED_GRACE if spinning else REPLY_TIMEOUT)
+            except SchedError:
+                if not spinning:
+                    raise
+                self._respawn(i)
+                return {"ev": "exc", "type": "<killed by the harness: no progress after a lock conflict>", "msg": "",
+                        "passed": [], "flags": sorted(flags), "killed": True}
+            if ev.get("ev") == "flag":
+                flags.add(ev["name"])
+                continue
+            ev["flags"] = sorted(flags | set(ev.get("flags", ())))
+            return ev
+
     def call(self, i, arg):
         """Run the operation in worker i without any pausing (warm-up helper); returns the final event."""
         w = self.workers[i]
         w.send({"cmd": "run", "arg": arg, "lazy": True})
         for _ in range(MAX_POINTS + 1):
-            ev = w.recv()
+            ev = self._await(i, False)
             if ev["ev"] != "point":
                 return ev
             w.send({"cmd": "go"})
@@ -391,17 +415,19 @@ class Group:
                 else:
                     wk.send({"cmd": "go"})
                 status[w] = "running"
-                ev = wk.recv()
+                others_mid = any(status[o] == "paused" for o in range(n) if o != w)
+                ev = self._await(w, others_mid)
                 count[w] += 1
                 kind = ev["ev"]
-                if kind == "point":
+                if ev.get("killed"):
+                    status[w] = "idle"               # a fresh worker took its place
+                elif kind == "point":
                     status[w] = "paused"
                 elif kind in ("done", "exc"):
                     status[w] = kind
                     final[w] = ev
                 else:
                     raise SchedError("unexpected event %r" % (ev,))
-                others_mid = any(status[o] == "paused" for o in range(n) if o != w)
                 blocked = "blocked" in ev.get("flags", ()) and others_mid
                 run.steps.append(Step(w, eligible, ev, blocked, observe(self)))
                 depth += 1
@@ -423,9 +449,11 @@ class Group:
                 k = 0
                 while status[w] == "paused":
                     self.workers[w].send({"cmd": "go"})
-                    ev = self.workers[w].recv()
+                    ev = self._await(w, any(status[o] == "paused" for o in range(n) if o != w))
                     k += 1
-                    if ev["ev"] in ("done", "exc"):
+                    if ev.get("killed"):
+                        status[w] = "idle"
+                    elif ev["ev"] in ("done", "exc"):
                         status[w] = ev["ev"]
                     elif k > MAX_POINTS:
                         raise SchedError("drain horizon")
